@@ -241,6 +241,14 @@ def eigen(X, P, NSIG=None, method='music', threshold=None, NFFT=default_NFFT,
     if NSIG != None and threshold != None:
         raise ValueError("NSIG and threshold cannot be provided together")
 
+    if threshold is not None and threshold < 1:
+        # the signal subspace is made of the eigenvalues above threshold * min:
+        # below 1 every eigenvalue qualifies and no noise subspace is left
+        raise ValueError("threshold must be greater than or equal to 1")
+
+    if NSIG is None and threshold is None and criteria not in ['aic', 'mdl']:
+        raise ValueError("criteria must be 'aic' or 'mdl'")
+
     if NSIG is not None:
         if NSIG < 0:
             raise ValueError('NSIG must be positive')
